@@ -28,6 +28,13 @@ type Encoder struct {
 	allowRetype bool
 	// NonFinalBin is the tag for non-final binary chunks (x41 per collected grammar).
 	NonFinalBin byte
+	// ordinals of the containers already written (shared nodes are written as references)
+	ordinals map[*Value]int
+	nextOrd  int
+	// NoRefs writes shared nodes again instead of by reference (cycles then never end: caller's duty)
+	NoRefs bool
+	// NoCompactDate renders every date in the 8-octet form whatever the choice says
+	NoCompactDate bool
 }
 
 // NewEncoder builds an encoder.
@@ -35,7 +42,7 @@ func NewEncoder(ch Choices) *Encoder {
 	if ch == nil {
 		ch = Canon{}
 	}
-	return &Encoder{Ch: ch, NonFinalBin: 0x41}
+	return &Encoder{Ch: ch, NonFinalBin: 0x41, ordinals: map[*Value]int{}}
 }
 
 // Encode renders one top-level value canonically.
@@ -50,11 +57,13 @@ func (e *Encoder) Top(v *Value) {
 	// collect classes in first-use order
 	var order []*Class
 	seen := map[*Class]bool{}
+	visited := map[*Value]bool{}
 	var walk func(x *Value, d int)
 	walk = func(x *Value, d int) {
-		if x == nil || d > 3000 {
+		if x == nil || d > 3000 || visited[x] {
 			return
 		}
+		visited[x] = true
 		if x.K == Object && !seen[x.Class] && e.classIndex(x.Class) < 0 {
 			seen[x.Class] = true
 			order = append(order, x.Class)
@@ -354,6 +363,15 @@ type retype struct{}
 func (e *Encoder) Value(v *Value) {
 	retypeOK := e.allowRetype
 	e.allowRetype = false
+	if v.K == List || v.K == Map || v.K == Object {
+		if n, ok := e.ordinals[v]; ok && !e.NoRefs {
+			e.Out = append(e.Out, 0x51)
+			e.int32(int32(n), "ref")
+			return
+		}
+		e.ordinals[v] = e.nextOrd
+		e.nextOrd++
+	}
 	switch v.K {
 	case Null:
 		e.Out = append(e.Out, 'N')
@@ -376,7 +394,7 @@ func (e *Encoder) Value(v *Value) {
 		e.Out = AppendDouble(e.Out, v.F, f[e.Ch.Pick(len(f), "double-form")])
 	case Date:
 		compactOK := v.I%60000 == 0 && v.I/60000 >= math.MinInt32 && v.I/60000 <= math.MaxInt32
-		if compactOK && e.Ch.Pick(2, "date-form") == 0 {
+		if compactOK && e.Ch.Pick(2, "date-form") == 0 && !e.NoCompactDate {
 			e.Out = be(append(e.Out, 0x4b), uint64(uint32(int32(v.I/60000))), 4)
 		} else {
 			e.Out = be(append(e.Out, 0x4a), uint64(v.I), 8)
